@@ -8,6 +8,7 @@ mod driver;
 mod evalrun;
 mod gen;
 mod rs;
+mod serval;
 mod streams;
 mod oracle;
 mod pool;
@@ -188,6 +189,7 @@ fn main() {
                 run_rs_stream(&o, &mut rep, "random-expressions", "type-directed random expressions of depth <= 6 over all 47 constructors (7/8 well-typed children), leaves from the boundary pool and from facts fields of every type, through RuleSet::evaluate_value with cacheable / non-cacheable / failing user functions and symbols; inputs map / non-map / None", false, cases, if o.prop == "C02" { "full" } else { "range" });
             }
         }
+        "C13" => serval::run(&mut rep, &o.driver, o.workers, o.tier == "thorough", o.seed),
         "C17" => conv::run(&mut rep, &o.driver, o.workers, o.tier == "thorough", o.seed),
         "C05" => {
             let mut rng = rng::Rng::new(o.seed);
@@ -198,6 +200,7 @@ fn main() {
             let mut rng = rng::Rng::new(o.seed);
             let cases = streams::rules_cases(&mut rng, o.tier == "thorough");
             run_rs_stream(&o, &mut rep, "rulesets", "every sequence of 0..3 (thorough 0..4) rules over 13 rule kinds (4 succeeding, 8 failing one per error class, 1 counting user function) exhaustively, plus random longer rulesets and non-map inputs; compared on the outcome list (length, order, each value / error kind + payload)", false, cases, "full");
+            serval::run_evaluate(&mut rep, &o.driver, o.workers, o.tier == "thorough", o.seed);
         }
         "C10" => {
             let mut rng = rng::Rng::new(o.seed);
